@@ -1,6 +1,7 @@
 // C08 TSan scenarios: muduo/base - ThreadPool::run, BlockingQueue, BoundedBlockingQueue, CountDownLatch,
 // AsyncLogging::append, the LOG_* macros.
 #include "C08_tsan.h"
+#include "muduo/base/LogFile.h"
 #include "muduo/base/ThreadPool.h"
 #include "muduo/base/BlockingQueue.h"
 #include "muduo/base/BoundedBlockingQueue.h"
@@ -194,11 +195,56 @@ namespace
 std::atomic<int> g_fwrite_stall_ms(0);
 }
 extern "C" size_t __real_fwrite_unlocked(const void* ptr, size_t size, size_t n, FILE* stream);
+extern "C" void __tsan_write_range(void* addr, unsigned long size);
 extern "C" size_t __wrap_fwrite_unlocked(const void* ptr, size_t size, size_t n, FILE* stream)
 {
   int ms = g_fwrite_stall_ms.exchange(0, std::memory_order_relaxed);
   if (ms > 0) ::usleep(ms * 1000);
+  // libc is not instrumented: tell ThreadSanitizer what stdio does - it copies into the stream's buffer, which is the array
+  // the program handed to setbuffer() (FileUtil::AppendFile::buffer_)
+  if (stream->_IO_buf_base && stream->_IO_buf_end > stream->_IO_buf_base)
+  {
+    size_t cap = static_cast<size_t>(stream->_IO_buf_end - stream->_IO_buf_base);
+    size_t len = size * n;
+    __tsan_write_range(stream->_IO_buf_base, len < cap ? len : cap);
+  }
   return __real_fwrite_unlocked(ptr, size, n, stream);
+}
+
+// Two LogFile objects, each used by ONE thread (legal: LogFile(threadSafe = false) is single-threaded per object).  Nothing
+// is shared between them - unless something the objects use has static storage (AppendFile's stdio buffer).
+namespace
+{
+void* logfileWriter(void* p)
+{
+  long id = reinterpret_cast<long>(p);
+  char base[256];
+  snprintf(base, sizeof base, "c08_lf%ld_%d", id, getpid());
+  {
+    muduo::LogFile lf(base, 64 * 1024 * 1024, false, 1, 16);
+    std::string line(200, static_cast<char>('a' + id));
+    line += '\n';
+    for (int i = 0; i < 400; ++i)
+    {
+      lf.append(line.data(), static_cast<int>(line.size()));
+      if (i % 50 == 0) lf.flush();
+    }
+  }
+  return NULL;
+}
+}  // namespace
+
+C08_SCENARIO(two_logfiles_two_threads)
+{
+  if (chdir("/tmp") != 0) {}
+  pthread_t a, b;
+  pthread_create(&a, NULL, logfileWriter, reinterpret_cast<void*>(1L));
+  pthread_create(&b, NULL, logfileWriter, reinterpret_cast<void*>(2L));
+  pthread_join(a, NULL);
+  pthread_join(b, NULL);
+  char cmd[300];
+  snprintf(cmd, sizeof cmd, "rm -f /tmp/c08_lf1_%d.* /tmp/c08_lf2_%d.*", getpid(), getpid());
+  if (system(cmd) != 0) {}
 }
 
 C08_SCENARIO(asynclogging_overflow_during_writeout)
